@@ -37,6 +37,15 @@ def step (line : String) : String :=
     match fromHex c, parseTags t with
     | some c, some t => showB (Build.shouldBuild driverU c (tagsOf t))
     | _, _ => "bad-op"
+  | ["matchm", n, ts] =>
+    -- batched: one verdict character per `;`-separated tag set
+    match fromHex n, (ts.splitOn ";").mapM parseTags with
+    | some n, some tss => String.ofList (tss.map fun t => if Build.matchFile driverU n (tagsOf t) then 't' else 'f')
+    | _, _ => "bad-op"
+  | ["shouldm", c, ts] =>
+    match fromHex c, (ts.splitOn ";").mapM parseTags with
+    | some c, some tss => String.ofList (tss.map fun t => if Build.shouldBuild driverU c (tagsOf t) then 't' else 'f')
+    | _, _ => "bad-op"
   | ["mtags", n, t] =>
     match fromHex n, parseTags t with
     | some n, some t => showB (Build.matchTags driverU n (tagsOf t))
